@@ -15,11 +15,12 @@ Definition cols (l : list (nat * bytes)) : list (nat * bytes) :=
   map (fun p => ((fst p - length (snd p))%nat, snd p)) l.
 
 (* Names are the bytes the kernel holds; what a Python caller sees is their str (Text.dec).
-   An interface name (any bytes: ':' '/' '!' digits, non-ASCII ...) must survive str.strip() -- first
-   and last character not a str blank -- and cannot contain a line break; blanks inside are fine.
+   An interface name is any bytes (':' '/' '!' digits, non-ASCII, control characters ...) that can be
+   told from the "%6s:" padding -- it does not begin or end with a space -- and holds no line break.
+   Every name dev_valid_name() accepts is of this kind (lemma dev_valid_net_ok).
    A block-device name is one whitespace-separated token: no str blank anywhere. *)
 Definition net_name_ok (n : bytes) : bool :=
-  uends_ok (dec n) && negb (contains 10 (dec n)) && negb (contains 13 (dec n)).
+  sends_ok (dec n) && negb (contains 10 (dec n)) && negb (contains 13 (dec n)).
 Definition disk_name_ok (n : bytes) : bool := utok_ok (dec n).
 (* dev_valid_name() of net/core/dev.c: 1..15 bytes, not "." / "..", no '/', ':' or kernel isspace()
    (\t \n \v \f \r ' ' and 0xA0) *)
